@@ -300,7 +300,7 @@ def judge(ctx, tr, desc):
 
 def big_spec(rng, kind):
     """a block of at least 64 KiB (4096 … 65537 frames): where a writer might reserve room, stream, or switch strategy"""
-    A.SCALE["frames"], A.SCALE["items"] = rng.choice([8192, 16384, 65537]), 2
+    A.SCALE["frames"], A.SCALE["items"] = rng.choice([8192, 8192, 16384]), 2
     try:
         return dict(kind=kind, v=A.GEN[kind](rng))
     finally:
